@@ -1,6 +1,8 @@
 package c10
 
 import (
+	"crypto/sha256"
+	"encoding/hex"
 	"fmt"
 	"runtime/debug"
 	"sort"
@@ -118,6 +120,8 @@ func runTyped(c TypedCase, o *kit.Obs) *kit.Failure {
 	}
 	// order on the key column
 	streams := ref.ShredRows(&e.Node, got)
+	dg := sha256.Sum256([]byte(fmt.Sprint(streams)))
+	o.Digest(hex.EncodeToString(dg[:8])) // compared between the assembly and the portable build
 	keyOf := streams[ki]
 	less := func(a, b ref.LV) bool { // strict "a must come before b"
 		if a.Null || b.Null {
